@@ -274,7 +274,7 @@ theorem nested_correlation (nests : List (Nest ℝ)) (hok : NestsOK nests) (i j 
     norm_num
   · intro hij n hn hi hj
     unfold corrEntry
-    haveI : Std.Symm (fun a b : Nest ℝ => ∀ x, x ∈ a.alts → x ∉ b.alts) :=
+    have : Std.Symm (fun a b : Nest ℝ => ∀ x, x ∈ a.alts → x ∉ b.alts) :=
       ⟨fun a b h x hxb hxa => h x hxa hxb⟩
     rw [corr_fold_some 1 _ (nestCorr 1 n) nests i j ⟨n, hn, pairIn_of_mem n i j hi hj hij⟩]
     · unfold nestCorr
@@ -300,7 +300,7 @@ theorem nested_correlation_scaled (mu : ℝ) (hmu : mu ≠ 1) (nests : List (Nes
     (i j : Int) (hij : i ≠ j) (n : Nest ℝ) (hn : n ∈ nests) (hi : i ∈ n.alts) (hj : j ∈ n.alts) :
     corrEntry mu nests i j = 1 - mu ^ 2 / n.mu ^ 2 := by
   unfold corrEntry
-  haveI : Std.Symm (fun a b : Nest ℝ => ∀ x, x ∈ a.alts → x ∉ b.alts) :=
+  have : Std.Symm (fun a b : Nest ℝ => ∀ x, x ∈ a.alts → x ∉ b.alts) :=
     ⟨fun a b h x hxb hxa => h x hxa hxb⟩
   rw [corr_fold_some mu _ (nestCorr mu n) nests i j ⟨n, hn, pairIn_of_mem n i j hi hj hij⟩]
   · unfold nestCorr
